@@ -65,7 +65,7 @@ theorem C09_some_parked_node_awaits_unparked (inp : RunInput) (hac : Acyclic inp
     results, every selection, oracle, flag and set-iteration order — no reachable state has the dispatcher ended by the
     cyclic-dependency error, neither from the `ancestors` test nor from `_check_deadlock`, and the run never ends with
     that error.  Proof (`Proofs/C09Wait.lean`): in the state in which `_check_deadlock` would raise, every parked node
-    awaits something (`InvE.w`), what it awaits exists, is registered in `waiting_me` and unfinished (`InvE.e`, with
+    awaits something (`InvE9.w`), what it awaits exists, is registered in `waiting_me` and unfinished (`InvE9.e`, with
     `dispatched = []`), hence itself parked (`InvD.a2`, `InvL.a4/a5`); rank descent (`waiting_descent`) empties
     `waiting`. -/
 theorem C09_no_false_cycle_serial (inp : RunInput) (hser : inp.runner = .serial) (hac : Acyclic inp) (s : Sys)
